@@ -37,13 +37,13 @@ PROPS = {
           quick=(4, 6000), thorough=(16, 150000), timeout=(300, 2400),
           fuzz=[("FuzzC20Batch", 120, "batch"), ("FuzzC20Amount", 60, "amount")]),
  "C19": P("TestC19", "exploration",
-          "rapid generates histories of 1-5 sessions (build sync-version 0..4, or a pre-tracking build as a prefix; one tracking session in six is started with the hard-fork check disabled (--no-hf); 0-6 blocks each; "
+          "rapid generates histories of 1-5 sessions (build sync-version 0..4, or a pre-tracking build, as a prefix or — one session in eight — in the middle of the history; one tracking session in six is started with the hard-fork check disabled (--no-hf); 0-6 blocks each; "
           "a refused start does nothing and the history goes on) and 0-3 forks "
           "(heights from 3 below the start to 3 above the tip, minimum versions 0..4) on top of the base {0,-1}; every session runs for real "
           "(NewPegnetd start-up check + DBlockSync of empty blocks with PegnetdSyncVersion/Hardforks set; a pre-tracking build is emulated by "
           "removing the version rows it would not have written). Oracle at every tracked start-up: refused iff the reference predicate over "
-          "the model map height->version says so. Thorough adds exhaustive small scope, split over the shards (<=3 sessions x <=2 blocks x versions {pre,0,1,2} x {checked, forced} x one fork "
-          "at every offset x minimum 0..2: about 150,000 cases). Non-trivial = >=2 different versions synced blocks and a fork lies inside the synced range; distinct by case.",
+          "the model map height->version says so. Thorough adds exhaustive small scope, split over the shards (<=3 sessions x <=2 blocks x versions {pre,0,1,2} anywhere x {checked, forced} x one fork "
+          "at every offset x minimum 0..2: about 250,000 cases). Non-trivial = >=2 different versions synced blocks and a fork lies inside the synced range; distinct by case.",
           quick=(4, 250), thorough=(16, 1500), timeout=(300, 3000)),
  "C07": P("TestC07", "exploration",
           "function level: (PIP-10 on/off, amount 0..2^63-1, four rates over 0..2^64-1, all boundary-biased; averages equal to / 10% around / independent of spot) "
